@@ -65,3 +65,16 @@ func TestConfig(t *testing.T) {
 	}
 	fmt.Printf("SCENARIOS-RUN %d\n", n)
 }
+
+// TestSecret replays Secret event histories ($VERIF_IN) into the real SecretController.Reconcile.
+func TestSecret(t *testing.T) {
+	in, out := os.Getenv("VERIF_IN"), os.Getenv("VERIF_OUT")
+	if in == "" || out == "" {
+		t.Skip("VERIF_IN / VERIF_OUT not set")
+	}
+	n, err := runSecretFile(in, out)
+	if err != nil {
+		t.Fatalf("secret driver: %v (after %d scenarios)", err, n)
+	}
+	fmt.Printf("SCENARIOS-RUN %d\n", n)
+}
